@@ -162,7 +162,7 @@ def power_analyze(field, spaces=None, binbounds=None,
         raise ValueError("No space for analysis specified.")
 
     field_real = not utilities.iscomplextype(field.dtype)
-    if (not field_real) and keep_phase_information:
+    if field_real and keep_phase_information:
         raise ValueError("cannot keep phase from real-valued input Field")
 
     if keep_phase_information:
